@@ -114,8 +114,11 @@ def _pool(rng, tier: str):
         envspecs[f"e{i}"] = spec
     envs = sorted(envspecs)
     queries = []
-    if rng.random() < 0.35:
+    fam = rng.random()
+    if fam < 0.35:
         queries.extend(H.query_family(rng, rng.choice((2, 3))))
+    elif fam < 0.45:
+        queries.extend(H.near_equal_family(rng, rng.choice((2, 3))))
     for _ in range(rng.choice((1, 2, 3)) if not queries else rng.choice((0, 1))):
         if rng.random() < 0.45:
             queries.append(rng.choice(SUSPEND_QUERIES))
